@@ -140,6 +140,8 @@ Shape(k) ==       \* bodies of the grouping g1
     [] k = 3 -> << Stmt("container", "k1", << Cfg("false"), Stmt("choice", "ch", << Stmt("case", "ca", << Leaf("x") >>), Leaf("sh") >>) >>),
                    Uses("", "g2") >>
     [] k = 4 -> << Stmt("container", "k1", << Leaf("x"), Stmt("grouping", "g2", << Leaf("inner2") >>), Uses("", "g2") >>) >>
+    [] k = 5 -> << Stmt("container", "k1", << Leaf("x"),
+                      Stmt("action", "act", << Stmt("input", "input", << Leaf("ai") >>), Stmt("output", "output", << Leaf("ao"), Uses("", "g2") >>) >>) >>) >>
 G1(k) == Stmt("grouping", "g1", Shape(k))
 \* where g1 (and the g2 next to it) is defined: d's top level, d's submodule, u's top level, u's submodule
 DefD == << Stmt("grouping", "g2", << Leaf("d2") >>) >>
@@ -168,6 +170,8 @@ UsesProg(k, def, s1, s2, mut) ==
                  [] mut = "augment" -> << Aug(target, << Leaf("grafted") >>) >>
                  [] mut = "notsupp" -> << Stmt("deviation", target, << Stmt("deviate", "not-supported", <<>>) >>) >>
                  [] mut = "config" -> << Stmt("deviation", target, << Stmt("deviate", "add", << Cfg("false") >>) >>) >>
+                 [] mut = "maxelem" -> << Stmt("deviation", target, << Stmt("deviate", "replace", << Stmt("max-elements", 2, <<>>) >>) >>) >>
+                 [] mut = "inaction" -> << Aug(target \o << Q("u", "act"), Q("u", "input") >>, << Leaf("grafted") >>) >>
       u == Mod("u", ImpD, IF def = "us" THEN <<"us">> ELSE <<>>, uBody)
       d == Mod("d", NoImp, IF def = "ds" THEN <<"ds">> ELSE <<>>, dBody)
       w == Mod("w", ImpU, <<>>, wBody)
@@ -175,11 +179,11 @@ UsesProg(k, def, s1, s2, mut) ==
           @@ (IF def = "us" THEN ("us" :> Sub("us", "u", ImpD, <<>>, << G1(k) >>)) ELSE << >>)
           @@ (IF def = "ds" THEN ("ds" :> Sub("ds", "d", NoImp, <<>>, << G1(k), Stmt("grouping", "g2", << Leaf("ds2") >>) >>)) ELSE << >>))
 SUses(dummy) ==
-  { UsesProg(k, def, s1, s2, mut) : k \in 1..4, def \in {"d", "ds", "u"}, s1 \in Sites, s2 \in Sites,
-                                    mut \in {"none", "augment", "notsupp", "config"} }
+  { UsesProg(k, def, s1, s2, mut) : k \in 1..5, def \in {"d", "ds", "u"}, s1 \in Sites, s2 \in Sites,
+                                    mut \in {"none", "augment", "notsupp", "config", "maxelem", "inaction"} }
 SUsesQuick(dummy) ==
-  { UsesProg(k, def, s1, s2, mut) : k \in 1..4, def \in {"d", "ds", "u"}, s1 \in {"top", "input", "nested", "case"}, s2 \in {"top", "list", "notif"},
-                                    mut \in {"none", "augment", "notsupp", "config"} }
+  { UsesProg(k, def, s1, s2, mut) : k \in 1..5, def \in {"d", "ds", "u"}, s1 \in {"top", "nested", "case"}, s2 \in {"top", "list", "notif"},
+                                    mut \in {"none", "augment", "notsupp", "config", "maxelem", "inaction"} }
 
 \* ---- S_dev: deviations (C08) -----------------------------------------------------------
 S1(kw, arg) == Stmt(kw, arg, <<>>)
